@@ -31,6 +31,13 @@ type simPKI struct {
 	ServerShortRoot   map[string]*kit.Cert // leaf under ShortRoot/ShortInter
 	ServerIP          map[string]*kit.Cert // leaf with an IP SAN (10.1.2.3) besides the DNS name
 	ShortRootPool     *zx509.CertPool
+	// chains that are well-signed but not authorised: a CA below the pathLenConstraint-0 intermediate, and a
+	// certificate "issued" by an end-entity certificate
+	DeepCA            *kit.Cert            // CA issued by Inter (which has pathLenConstraint 0)
+	ServerDeep        map[string]*kit.Cert // leaf under DeepCA: chain leaf, DeepCA, Inter
+	ClientDeep        map[string]*kit.Cert
+	ServerUnderLeaf   map[string]*kit.Cert // leaf signed by the key of an end-entity certificate (Server["p256"])
+	ClientUnderLeaf   map[string]*kit.Cert
 	RootPool, BadPool *zx509.CertPool
 	InterPool         *zx509.CertPool
 }
@@ -75,6 +82,16 @@ func pki() *simPKI {
 			p.Client[kind] = kit.MakeCert(kit.CertSpec{Name: "client-" + kind, Key: clientKeyOfKind[kind], Issuer: p.Inter, Serial: n + 4, ClientAuth: true})
 			p.ClientUntrusted[kind] = kit.MakeCert(kit.CertSpec{Name: "client-" + kind, Key: clientKeyOfKind[kind], Issuer: p.BadRoot, Serial: n + 5, ClientAuth: true})
 			p.ClientShort[kind] = kit.MakeCert(kit.CertSpec{Name: "client-" + kind, Key: clientKeyOfKind[kind], Issuer: p.Inter, Serial: n + 6, ClientAuth: true, NotBefore: short0, NotAfter: short1})
+		}
+		p.DeepCA = kit.MakeCert(kit.CertSpec{Name: "CA below a pathlen-0 CA", Key: "p256_12", IsCA: true, MaxPathLen: -1, Issuer: p.Inter, Serial: 6})
+		p.ServerDeep, p.ClientDeep, p.ServerUnderLeaf, p.ClientUnderLeaf = map[string]*kit.Cert{}, map[string]*kit.Cert{}, map[string]*kit.Cert{}, map[string]*kit.Cert{}
+		n = 200
+		for _, kind := range []string{"rsa", "p256", "p384", "ed"} {
+			n += 10
+			p.ServerDeep[kind] = kit.MakeCert(kit.CertSpec{Name: serverName, Key: keyOfKind[kind], Issuer: p.DeepCA, DNSNames: []string{serverName}, Serial: n})
+			p.ClientDeep[kind] = kit.MakeCert(kit.CertSpec{Name: "client-" + kind, Key: clientKeyOfKind[kind], Issuer: p.DeepCA, Serial: n + 1, ClientAuth: true})
+			p.ServerUnderLeaf[kind] = kit.MakeCert(kit.CertSpec{Name: serverName, Key: keyOfKind[kind], Issuer: p.Server["p256"], DNSNames: []string{serverName}, Serial: n + 2})
+			p.ClientUnderLeaf[kind] = kit.MakeCert(kit.CertSpec{Name: "client-" + kind, Key: clientKeyOfKind[kind], Issuer: p.Server["p256"], Serial: n + 3, ClientAuth: true})
 		}
 		p.RootPool = zx509.NewCertPool()
 		p.RootPool.AddCert(zparse(p.Root.DER))
